@@ -39,6 +39,7 @@ import (
 	"testing"
 	"time"
 
+	eth2client "github.com/attestantio/go-eth2-client"
 	"github.com/attestantio/go-eth2-client/api"
 	apiv1 "github.com/attestantio/go-eth2-client/api/v1"
 	"github.com/attestantio/go-eth2-client/spec/phase0"
@@ -53,7 +54,9 @@ import (
 	mockcache "github.com/attestantio/vouch/services/cache/mock"
 	nullmetrics "github.com/attestantio/vouch/services/metrics/null"
 	mockproposalpreparer "github.com/attestantio/vouch/services/proposalpreparer/mock"
+	"github.com/attestantio/vouch/services/signer"
 	mocksigner "github.com/attestantio/vouch/services/signer/mock"
+	"github.com/attestantio/vouch/services/submitter"
 	"github.com/attestantio/vouch/verifsupport"
 	"github.com/prysmaticlabs/go-bitfield"
 	"github.com/rs/zerolog"
@@ -93,6 +96,9 @@ type c14Scenario struct {
 	Sc    int       `json:"sc"`
 	Spe   uint64    `json:"spe"`  // slots per epoch the scenario's slot numbers assume
 	Wide  bool      `json:"wide"` // shift the epoch to a seeded far-away position
+	// wired family (zz_verif_c14_wired_test.go): the real signer, real submitter and real aggregation behind the
+	// same controller / subscriber / aggregator; a scenario validator stands for a block of accounts
+	Wired *c14Wiring `json:"wired"`
 	Steps []c14Step `json:"steps"`
 }
 
@@ -135,6 +141,12 @@ func (s *c14Spec) Spec(_ context.Context, _ *api.SpecOpts) (*api.Response[map[st
 			"TARGET_AGGREGATORS_PER_COMMITTEE": s.target,
 			// read by handleCurrentDependentRootChanged (modulus)
 			"EPOCHS_PER_SYNC_COMMITTEE_PERIOD": uint64(256),
+			// read by the real signer of the wired family
+			"DOMAIN_BEACON_ATTESTER":     phase0.DomainType{0x00, 0x00, 0x00, 0x00},
+			"DOMAIN_BEACON_PROPOSER":     phase0.DomainType{0x01, 0x00, 0x00, 0x00},
+			"DOMAIN_RANDAO":              phase0.DomainType{0x02, 0x00, 0x00, 0x00},
+			"DOMAIN_SELECTION_PROOF":     c14wDomainSelection,
+			"DOMAIN_AGGREGATE_AND_PROOF": c14wDomainAggregate,
 		},
 		Metadata: map[string]any{},
 	}, nil
@@ -169,6 +181,8 @@ type c14Parked struct {
 type c14Signer struct {
 	mu   sync.Mutex
 	sigs map[[2]uint64]phase0.BLSSignature
+	// whose slot signature a signature is (validator index; the slot signatures of a scenario are all different)
+	owner map[phase0.BLSSignature]uint64
 	// overlap: the next call for slot holdSlot is parked (it stays inside the real AggregatorsAndSignatures)
 	armed    bool
 	holdSlot uint64
@@ -187,6 +201,32 @@ func (s *c14Signer) setFail(slots []uint64, off uint64) {
 		s.failSlots[x+off] = true
 	}
 	s.mu.Unlock()
+}
+
+// refuse says whether the script refuses the selection of the slot (wired family: asked by the accounts).
+func (s *c14Signer) refuse(slot uint64) bool {
+	s.mu.Lock()
+	defer s.mu.Unlock()
+	if s.failSlots[slot] {
+		s.refused[slot] = true
+		return true
+	}
+	return false
+}
+
+// own is the slot signature of the validator, if the scenario has given it a duty in the slot.
+func (s *c14Signer) own(v, slot uint64) (phase0.BLSSignature, bool) {
+	s.mu.Lock()
+	defer s.mu.Unlock()
+	sig, ok := s.sigs[[2]uint64{v, slot}]
+	return sig, ok
+}
+
+// ownerOf names the validator whose slot signature sig is (0: nobody's).
+func (s *c14Signer) ownerOf(sig phase0.BLSSignature) uint64 {
+	s.mu.Lock()
+	defer s.mu.Unlock()
+	return s.owner[sig]
 }
 
 // takeRefused ends the failure script and says which slots were refused.
@@ -395,6 +435,7 @@ type c14Attester struct {
 	count      map[uint64]int // attestations per committee (one per validator of Vouch in it)
 	roots      map[uint64]phase0.Root
 	spe        uint64
+	note       func(root phase0.Root, data *phase0.AttestationData) // wired family: the node can serve the aggregate
 }
 
 func (a *c14Attester) Attest(_ context.Context, duty *attester.Duty) ([]*phase0.Attestation, error) {
@@ -417,6 +458,9 @@ func (a *c14Attester) Attest(_ context.Context, duty *attester.Duty) ([]*phase0.
 			return nil, err
 		}
 		a.roots[c] = root
+		if a.note != nil {
+			a.note(root, data)
+		}
 		n := a.count[c]
 		if n == 0 {
 			n = 1
@@ -496,6 +540,8 @@ type c14World struct {
 	duties  *c14Duties
 	signer  *c14Signer
 	sub     *c14Submitter
+	sub2    *c14Submitter // second beacon node behind the multinode submitter (wired family)
+	wired   *c14Wired     // nil: the fake-based family
 	att     *c14Attester
 	agg     *c14Aggregator
 	accts   *mockaccountmanager.ValidatingAccountsProvider
@@ -588,7 +634,7 @@ func (w *c14World) drain(t *testing.T) {
 	}
 }
 
-func c14Build(t *testing.T, ctx context.Context, spe, target, now uint64) *c14World {
+func c14Build(t *testing.T, ctx context.Context, spe, target, now uint64, wiring *c14Wiring) *c14World {
 	t.Helper()
 	w := &c14World{spe: spe}
 	w.ct = verifsupport.NewChainTime(spe, c14SlotDuration)
@@ -596,7 +642,7 @@ func c14Build(t *testing.T, ctx context.Context, spe, target, now uint64) *c14Wo
 	w.sched = verifsupport.NewScheduler()
 	w.duties = &c14Duties{spe: spe}
 	w.gate = &c14Gate{}
-	w.signer = &c14Signer{sigs: map[[2]uint64]phase0.BLSSignature{}}
+	w.signer = &c14Signer{sigs: map[[2]uint64]phase0.BLSSignature{}, owner: map[phase0.BLSSignature]uint64{}}
 	w.holds = &c14Holds{gate: w.gate, signer: w.signer}
 	w.sub = &c14Submitter{}
 	w.att = &c14Attester{spe: spe}
@@ -604,21 +650,45 @@ func c14Build(t *testing.T, ctx context.Context, spe, target, now uint64) *c14Wo
 	w.accMap = map[phase0.ValidatorIndex]e2wtypes.Account{}
 	spec := &c14Spec{spe: spe, target: target}
 
+	// what the services are given: scripted fakes, or (wired family) the real neighbours as main.go wires them
+	var (
+		aggregateProvider   eth2client.AggregateAttestationProvider         = mock.NewAggregateAttestationProvider()
+		aggregatesSubmitter submitter.AggregateAttestationsSubmitter        = mock.NewAggregateAttestationsSubmitter()
+		selectionSigner     signer.SlotSelectionSigner                      = w.signer
+		aggregateSigner     signer.AggregateAndProofSigner                  = mocksigner.New()
+		subscriptionsSink   submitter.BeaconCommitteeSubscriptionsSubmitter = w.sub
+	)
+	if wiring != nil {
+		w.wired = c14wNew(t, *wiring, spe, w.signer)
+		w.att.note = w.wired.noteData
+		realSigner := c14wSigner(t, ctx, spec)
+		realSubmitter := c14wSubmitter(t, ctx, w)
+		aggregateProvider = w.wired
+		aggregatesSubmitter = realSubmitter.(submitter.AggregateAttestationsSubmitter)
+		selectionSigner, aggregateSigner = realSigner, realSigner
+		subscriptionsSink = realSubmitter.(submitter.BeaconCommitteeSubscriptionsSubmitter)
+	}
+
 	realAgg, err := standardattestationaggregator.New(ctx,
 		standardattestationaggregator.WithLogLevel(zerolog.Disabled),
 		standardattestationaggregator.WithMonitor(nullmetrics.New()),
 		standardattestationaggregator.WithSpecProvider(spec),
 		standardattestationaggregator.WithValidatingAccountsProvider(w.accts),
-		standardattestationaggregator.WithAggregateAttestationProvider(mock.NewAggregateAttestationProvider()),
-		standardattestationaggregator.WithAggregateAttestationsSubmitter(mock.NewAggregateAttestationsSubmitter()),
-		standardattestationaggregator.WithSlotSelectionSigner(w.signer),
-		standardattestationaggregator.WithAggregateAndProofSigner(mocksigner.New()),
+		standardattestationaggregator.WithAggregateAttestationProvider(aggregateProvider),
+		standardattestationaggregator.WithAggregateAttestationsSubmitter(aggregatesSubmitter),
+		standardattestationaggregator.WithSlotSelectionSigner(selectionSigner),
+		standardattestationaggregator.WithAggregateAndProofSigner(aggregateSigner),
 		standardattestationaggregator.WithChainTime(w.ct),
 	)
 	if err != nil {
 		t.Fatalf("c14: attestation aggregator New: %v", err)
 	}
 	w.agg = &c14Aggregator{real: realAgg}
+	var controllerAggregator attestationaggregator.Service = w.agg
+	if wiring != nil {
+		// the aggregation jobs run the real Aggregate
+		controllerAggregator = realAgg
+	}
 
 	subscriber, err := standardbeaconcommitteesubscriber.New(ctx,
 		standardbeaconcommitteesubscriber.WithLogLevel(zerolog.Disabled),
@@ -627,7 +697,7 @@ func c14Build(t *testing.T, ctx context.Context, spe, target, now uint64) *c14Wo
 		standardbeaconcommitteesubscriber.WithChainTimeService(w.ct),
 		standardbeaconcommitteesubscriber.WithAttesterDutiesProvider(&c14GatedDuties{gate: w.gate, inner: w.duties}),
 		standardbeaconcommitteesubscriber.WithAttestationAggregator(realAgg),
-		standardbeaconcommitteesubscriber.WithBeaconCommitteeSubmitter(w.sub),
+		standardbeaconcommitteesubscriber.WithBeaconCommitteeSubmitter(subscriptionsSink),
 	)
 	if err != nil {
 		t.Fatalf("c14: beacon committee subscriber New: %v", err)
@@ -650,7 +720,7 @@ func c14Build(t *testing.T, ctx context.Context, spe, target, now uint64) *c14Wo
 		WithBeaconBlockProposer(mockbeaconblockproposer.New()),
 		WithBeaconBlockHeadersProvider(mock.NewBeaconBlockHeadersProvider()),
 		WithSignedBeaconBlockProvider(mock.NewSignedBeaconBlockProvider()),
-		WithAttestationAggregator(w.agg),
+		WithAttestationAggregator(controllerAggregator),
 		WithBeaconCommitteeSubscriber(subscriber),
 		WithAccountsRefresher(mockaccountmanager.NewRefresher()),
 		WithBlockToSlotSetter(mockcache.New(map[phase0.Root]phase0.Slot{}).(cache.BlockRootToSlotSetter)),
@@ -671,10 +741,71 @@ func (w *c14World) account(v uint64) e2wtypes.Account {
 	if a, ok := w.accMap[idx]; ok {
 		return a
 	}
-	a := c14NewAccount(v)
+	var a e2wtypes.Account
+	if w.wired != nil {
+		a = w.wired.newAccount(v, w.wired.inner[v])
+	} else {
+		a = c14NewAccount(v)
+	}
 	w.accMap[idx] = a
 	w.accts.AddAccount(idx, a)
 	return a
+}
+
+// resetSubs / collect: what the beacon node(s) received since the last reset (both nodes of the multinode style).
+func (w *c14World) resetSubs() {
+	w.sub.reset()
+	if w.sub2 != nil {
+		w.sub2.reset()
+	}
+}
+
+func (w *c14World) collect() ([]verifsupport.Ev, int) {
+	subs, calls := w.sub.collect()
+	if w.sub2 != nil {
+		subs2, calls2 := w.sub2.collect()
+		subs, calls = append(subs, subs2...), calls+calls2
+		c14Sort(subs)
+	}
+	return subs, calls
+}
+
+// scriptCall hands the latency script of the next (re-)subscription to the accounts (wired family).
+func (w *c14World) scriptCall(rng *rand.Rand) {
+	if w.wired == nil {
+		return
+	}
+	w.duties.mu.Lock()
+	ds := make([][2]uint64, 0, len(w.duties.duties))
+	for _, d := range w.duties.duties {
+		ds = append(ds, [2]uint64{uint64(d.ValidatorIndex), uint64(d.Slot)})
+	}
+	w.duties.mu.Unlock()
+	w.wired.script(ds, rng)
+}
+
+// callStats adds what the accounts saw during the call: local signings, how many of them ran at the same time,
+// how many waited for the script (described in the trace; not read by the trace specification).
+func (w *c14World) callStats(ev verifsupport.Ev) verifsupport.Ev {
+	if w.wired != nil {
+		ev["signer"] = w.wired.stats()
+	}
+	return ev
+}
+
+// members are the validators a scenario validator stands for (itself in the fake-based family).
+func (w *c14World) members(t *testing.T, v uint64) []uint64 {
+	if w.wired == nil {
+		return []uint64{v}
+	}
+	return w.wired.block(t, v)
+}
+
+// pubKey is the public key the beacon node reports for the validator.
+func (w *c14World) pubKey(v uint64) phase0.BLSPubKey {
+	var res phase0.BLSPubKey
+	copy(res[:], w.accMap[phase0.ValidatorIndex(v)].PublicKey().Marshal())
+	return res
 }
 
 // projectInfo is the controller's stored subscription info for the epoch, and whether the store has an
@@ -689,8 +820,9 @@ func (w *c14World) projectInfo(epoch phase0.Epoch) ([]verifsupport.Ev, bool) {
 			if sub == nil || sub.Duty == nil {
 				continue
 			}
+			// sv: whose slot signature is stored as the selection proof of the entry
 			res = append(res, verifsupport.Ev{"slot": uint64(slot), "committee": uint64(committee),
-				"v": uint64(sub.Duty.ValidatorIndex), "agg": sub.IsAggregator})
+				"v": uint64(sub.Duty.ValidatorIndex), "agg": sub.IsAggregator, "sv": w.signer.ownerOf(sub.Signature)})
 		}
 	}
 	c14Sort(res)
@@ -710,6 +842,110 @@ func c14Sort(evs []verifsupport.Ev) {
 		}
 		return false
 	})
+}
+
+// dutyStep changes the duty oracle as the step says (one validator; "resize": one committee) and logs it.
+func (w *c14World) dutyStep(t *testing.T, tr *verifsupport.Trace, scID int, st c14Step, spe, off uint64) {
+	t.Helper()
+	slot := st.Slot + off
+	if st.Op == "resize" {
+		// after the re-org the committee has another length; its validators keep slot and index
+		w.duties.mu.Lock()
+		for _, d := range w.duties.duties {
+			if uint64(d.Slot) == slot && uint64(d.CommitteeIndex) == st.Committee {
+				d.CommitteeLength = st.Size
+				d.ValidatorCommitteeIndex = uint64(d.ValidatorIndex) % st.Size
+			}
+		}
+		w.duties.mu.Unlock()
+		tr.Emit(verifsupport.Ev{"sc": scID, "ev": "Duty", "op": "resize", "v": uint64(0), "slot": slot, "committee": st.Committee,
+			"size": st.Size, "h": uint64(0)})
+		return
+	}
+	if !w.haveEp {
+		w.epoch, w.haveEp = slot/spe, true
+	}
+	if w.pendingReset != nil {
+		w.pendingReset["epoch"] = w.epoch
+		tr.Emit(w.pendingReset)
+		w.pendingReset = nil
+	}
+	w.account(st.V)
+	key := [2]uint64{st.V, slot}
+	w.signer.mu.Lock()
+	sig, ok := w.signer.sigs[key]
+	if !ok {
+		// a validator has one signature per slot, whatever the oracle says
+		if w.wired != nil {
+			// the ORACLE of the wired family: the slot signature from the validator's own key
+			sig = w.wired.ownSig(st.V, slot)
+		} else {
+			sig = c14FindSig(st.V, slot, st.H)
+		}
+		w.signer.sigs[key] = sig
+		w.signer.owner[sig] = st.V
+	}
+	w.signer.mu.Unlock()
+	if st.Op == "move" {
+		// the re-org leaves the validator its slot: another committee and / or another length
+		w.duties.mu.Lock()
+		var oc, oz uint64
+		found := false
+		for _, d := range w.duties.duties {
+			if uint64(d.Slot) == slot && uint64(d.ValidatorIndex) == st.V {
+				oc, oz, found = uint64(d.CommitteeIndex), d.CommitteeLength, true
+				d.CommitteeIndex = phase0.CommitteeIndex(st.Committee)
+				d.CommitteeLength = st.Size
+				d.ValidatorCommitteeIndex = st.V % st.Size
+				break
+			}
+		}
+		w.duties.mu.Unlock()
+		if !found {
+			t.Fatalf("c14: scenario %d moves a duty that the oracle does not have", scID)
+		}
+		tr.Emit(verifsupport.Ev{"sc": scID, "ev": "Duty", "op": "move", "v": st.V, "slot": slot, "committee": st.Committee,
+			"size": st.Size, "h": c14H(sig), "ocommittee": oc, "osize": oz})
+		return
+	}
+	if st.Op == "drop" {
+		w.duties.mu.Lock()
+		kept := w.duties.duties[:0:0]
+		size := st.Size
+		found := false
+		for _, d := range w.duties.duties {
+			if !found && uint64(d.Slot) == slot && uint64(d.ValidatorIndex) == st.V && uint64(d.CommitteeIndex) == st.Committee {
+				found = true
+				size = d.CommitteeLength
+				continue
+			}
+			kept = append(kept, d)
+		}
+		w.duties.duties = kept
+		w.duties.mu.Unlock()
+		if !found {
+			t.Fatalf("c14: scenario %d drops a duty that the oracle does not have", scID)
+		}
+		tr.Emit(verifsupport.Ev{"sc": scID, "ev": "Duty", "op": "drop", "v": st.V, "slot": slot, "committee": st.Committee,
+			"size": size, "h": c14H(sig)})
+		return
+	}
+	w.duties.mu.Lock()
+	w.duties.duties = append(w.duties.duties, &apiv1.AttesterDuty{
+		PubKey:                  w.pubKey(st.V),
+		Slot:                    phase0.Slot(slot),
+		ValidatorIndex:          phase0.ValidatorIndex(st.V),
+		CommitteeIndex:          phase0.CommitteeIndex(st.Committee),
+		CommitteeLength:         st.Size,
+		CommitteesAtSlot:        c14CommitteesMax,
+		ValidatorCommitteeIndex: st.V % st.Size,
+	})
+	w.duties.mu.Unlock()
+	real := st
+	real.Slot = slot
+	w.allDuty = append(w.allDuty, real)
+	tr.Emit(verifsupport.Ev{"sc": scID, "ev": "Duty", "op": "add", "v": st.V, "slot": slot, "committee": st.Committee,
+		"size": st.Size, "h": c14H(sig)})
 }
 
 func TestVerifC14(t *testing.T) {
@@ -736,12 +972,14 @@ func TestVerifC14(t *testing.T) {
 				if st.Spe != 0 {
 					spe = st.Spe
 				}
-				w = c14Build(t, ctx, spe, st.Target, st.Now+off)
+				w = c14Build(t, ctx, spe, st.Target, st.Now+off, sc.Wired)
 				w.off = off
 				// Vouch's validators (accounts) are the same throughout: a re-org changes duties, not accounts.
 				for _, x := range sc.Steps {
-					if x.Ev == "Duty" {
-						w.account(x.V)
+					if x.Ev == "Duty" && x.Op != "resize" {
+						for _, rv := range w.members(t, x.V) {
+							w.account(rv)
+						}
 					}
 				}
 				if st.Ep != 0 {
@@ -751,6 +989,9 @@ func TestVerifC14(t *testing.T) {
 					w.epoch = 0
 				}
 				ev := verifsupport.Ev{"sc": sc.Sc, "ev": "Reset", "now": st.Now + off, "target": st.Target, "spe": spe, "off": off}
+				if sc.Wired != nil {
+					ev["wired"] = *sc.Wired
+				}
 				if w.haveEp {
 					ev["epoch"] = w.epoch
 					tr.Emit(ev)
@@ -758,99 +999,15 @@ func TestVerifC14(t *testing.T) {
 					w.pendingReset = ev
 				}
 			case "Duty":
-				slot := st.Slot + off
 				if st.Op == "resize" {
-					// after the re-org the committee has another length; its validators keep slot and index
-					w.duties.mu.Lock()
-					for _, d := range w.duties.duties {
-						if uint64(d.Slot) == slot && uint64(d.CommitteeIndex) == st.Committee {
-							d.CommitteeLength = st.Size
-							d.ValidatorCommitteeIndex = uint64(d.ValidatorIndex) % st.Size
-						}
-					}
-					w.duties.mu.Unlock()
-					tr.Emit(verifsupport.Ev{"sc": sc.Sc, "ev": "Duty", "op": "resize", "v": uint64(0), "slot": slot, "committee": st.Committee,
-						"size": st.Size, "h": uint64(0)})
+					w.dutyStep(t, tr, sc.Sc, st, spe, off)
 					break
 				}
-				if !w.haveEp {
-					w.epoch, w.haveEp = slot/spe, true
+				for _, rv := range w.members(t, st.V) {
+					stm := st
+					stm.V = rv
+					w.dutyStep(t, tr, sc.Sc, stm, spe, off)
 				}
-				if w.pendingReset != nil {
-					w.pendingReset["epoch"] = w.epoch
-					tr.Emit(w.pendingReset)
-					w.pendingReset = nil
-				}
-				w.account(st.V)
-				key := [2]uint64{st.V, slot}
-				w.signer.mu.Lock()
-				sig, ok := w.signer.sigs[key]
-				if !ok {
-					// a validator has one signature per slot, whatever the oracle says
-					sig = c14FindSig(st.V, slot, st.H)
-					w.signer.sigs[key] = sig
-				}
-				w.signer.mu.Unlock()
-				if st.Op == "move" {
-					// the re-org leaves the validator its slot: another committee and / or another length
-					w.duties.mu.Lock()
-					var oc, oz uint64
-					found := false
-					for _, d := range w.duties.duties {
-						if uint64(d.Slot) == slot && uint64(d.ValidatorIndex) == st.V {
-							oc, oz, found = uint64(d.CommitteeIndex), d.CommitteeLength, true
-							d.CommitteeIndex = phase0.CommitteeIndex(st.Committee)
-							d.CommitteeLength = st.Size
-							d.ValidatorCommitteeIndex = st.V % st.Size
-							break
-						}
-					}
-					w.duties.mu.Unlock()
-					if !found {
-						t.Fatalf("c14: scenario %d moves a duty that the oracle does not have", sc.Sc)
-					}
-					tr.Emit(verifsupport.Ev{"sc": sc.Sc, "ev": "Duty", "op": "move", "v": st.V, "slot": slot, "committee": st.Committee,
-						"size": st.Size, "h": c14H(sig), "ocommittee": oc, "osize": oz})
-					break
-				}
-				if st.Op == "drop" {
-					w.duties.mu.Lock()
-					kept := w.duties.duties[:0:0]
-					size := st.Size
-					found := false
-					for _, d := range w.duties.duties {
-						if !found && uint64(d.Slot) == slot && uint64(d.ValidatorIndex) == st.V && uint64(d.CommitteeIndex) == st.Committee {
-							found = true
-							size = d.CommitteeLength
-							continue
-						}
-						kept = append(kept, d)
-					}
-					w.duties.duties = kept
-					w.duties.mu.Unlock()
-					if !found {
-						t.Fatalf("c14: scenario %d drops a duty that the oracle does not have", sc.Sc)
-					}
-					tr.Emit(verifsupport.Ev{"sc": sc.Sc, "ev": "Duty", "op": "drop", "v": st.V, "slot": slot, "committee": st.Committee,
-						"size": size, "h": c14H(sig)})
-					break
-				}
-				w.duties.mu.Lock()
-				w.duties.duties = append(w.duties.duties, &apiv1.AttesterDuty{
-					PubKey:                  phase0.BLSPubKey(w.accMap[phase0.ValidatorIndex(st.V)].(*c14Account).pub.b),
-					Slot:                    phase0.Slot(slot),
-					ValidatorIndex:          phase0.ValidatorIndex(st.V),
-					CommitteeIndex:          phase0.CommitteeIndex(st.Committee),
-					CommitteeLength:         st.Size,
-					CommitteesAtSlot:        c14CommitteesMax,
-					ValidatorCommitteeIndex: st.V % st.Size,
-				})
-				w.duties.mu.Unlock()
-				real := st
-				real.Slot = slot
-				w.allDuty = append(w.allDuty, real)
-				tr.Emit(verifsupport.Ev{"sc": sc.Sc, "ev": "Duty", "op": "add", "v": st.V, "slot": slot, "committee": st.Committee,
-					"size": st.Size, "h": c14H(sig)})
 			case "Advance":
 				w.ct.SetSlot(st.Now + off)
 				tr.Emit(verifsupport.Ev{"sc": sc.Sc, "ev": "Advance", "now": st.Now + off})
@@ -860,21 +1017,22 @@ func TestVerifC14(t *testing.T) {
 					t.Fatalf("c14: Subscribe without duties in scenario %d", sc.Sc)
 				}
 				epoch := phase0.Epoch(w.epoch)
-				w.sub.reset()
+				w.resetSubs()
 				accounts := make(map[phase0.ValidatorIndex]e2wtypes.Account, len(w.accMap))
 				for k, v := range w.accMap {
 					accounts[k] = v
 				}
 				w.gate.set(false, st.Fail)
 				w.signer.setFail(st.Sfail, off)
+				w.scriptCall(rng)
 				base := runtime.NumGoroutine() - w.holds.nheld()
 				w.svc.subscribeToBeaconCommittees(ctx, epoch, accounts)
 				c14QuiesceHeld(t, w.holds, base, "Subscribe")
 				w.gate.set(false, false)
-				subs, calls := w.sub.collect()
+				subs, calls := w.collect()
 				info, present := w.projectInfo(epoch)
-				tr.Emit(verifsupport.Ev{"sc": sc.Sc, "ev": "Subscribe", "ok": !st.Fail, "epoch": uint64(epoch), "info": info, "present": present,
-					"subs": subs, "calls": calls, "sfail": w.signer.takeRefused()})
+				tr.Emit(w.callStats(verifsupport.Ev{"sc": sc.Sc, "ev": "Subscribe", "ok": !st.Fail, "epoch": uint64(epoch), "info": info, "present": present,
+					"subs": subs, "calls": calls, "sfail": w.signer.takeRefused()}))
 			case "Head":
 				// A head event for the current slot through the real HandleHeadEvent.  With reorg, the event
 				// carries a changed previous (current) duty dependent root when the epoch of the duties is the
@@ -902,16 +1060,17 @@ func TestVerifC14(t *testing.T) {
 			case "Resub":
 				// A re-subscription in flight is let go: the beacon node answers (with the duties as they are
 				// now) or fails.
-				w.sub.reset()
+				w.resetSubs()
 				w.signer.setFail(st.Sfail, off)
+				w.scriptCall(rng)
 				base := runtime.NumGoroutine() - w.holds.nheld()
 				released := w.gate.release(!st.Fail)
 				// the goroutine let go runs on until the subscription has ended
 				c14QuiesceHeld(t, w.holds, base, "Resub")
-				subs, calls := w.sub.collect()
+				subs, calls := w.collect()
 				info, present := w.projectInfo(phase0.Epoch(w.epoch))
-				tr.Emit(verifsupport.Ev{"sc": sc.Sc, "ev": "Resub", "ok": released && !st.Fail, "released": released, "info": info,
-					"present": present, "subs": subs, "calls": calls, "inflight": w.gate.nheld(), "sfail": w.signer.takeRefused()})
+				tr.Emit(w.callStats(verifsupport.Ev{"sc": sc.Sc, "ev": "Resub", "ok": released && !st.Fail, "released": released, "info": info,
+					"present": present, "subs": subs, "calls": calls, "inflight": w.gate.nheld(), "sfail": w.signer.takeRefused()}))
 			case "Fetch":
 				// A re-subscription in flight is let go at the beacon node (it fetches the duties as they are
 				// now); its selection call for slot hs is parked inside the scripted signer.  If the call never
@@ -980,6 +1139,7 @@ func TestVerifC14(t *testing.T) {
 				w.agg.duties = nil
 				w.agg.mu.Unlock()
 				at := uint64(w.ct.CurrentSlot())
+				attestBase := runtime.NumGoroutine() - w.holds.nheld()
 
 				// After a refresh the controller has made its own attestation job for the slot (from the duties
 				// it re-fetched): that one runs.  Otherwise the job of the epoch preparation, which the driver
@@ -1000,6 +1160,9 @@ func TestVerifC14(t *testing.T) {
 					w.agg.mu.Lock()
 					before := len(w.agg.duties)
 					w.agg.mu.Unlock()
+					if w.wired != nil {
+						w.wired.takeAggregates()
+					}
 					w.sched.Fire(ctx, job.Name)
 					w.agg.mu.Lock()
 					var ad *attestationaggregator.Duty
@@ -1020,7 +1183,22 @@ func TestVerifC14(t *testing.T) {
 						root, ok := w.att.roots[jc]
 						ev["rootok"] = ok && root == ad.AttestationDataRoot && uint64(ad.Slot) == js
 					}
+					if w.wired != nil {
+						// the job ran the real Aggregate: judged by the signed aggregate-and-proof at the beacon node
+						if saps := w.wired.takeAggregates(); len(saps) == 1 {
+							root, ok := w.att.roots[jc]
+							v, sigok, rootok := w.wired.judge(saps[0], js, w.signer.own, root, ok)
+							ev["v"], ev["sigok"], ev["rootok"] = v, sigok, rootok
+						} else {
+							ev["delivered"] = len(saps)
+						}
+					}
 					jobs = append(jobs, ev)
+				}
+				if w.wired != nil {
+					// the real submitters behind the aggregation jobs work on goroutines of their own (the multinode style
+					// keeps a timer goroutine for its timeout): they have ended before the next step takes its bearings
+					c14QuiesceHeld(t, w.holds, attestBase, "Attest")
 				}
 				c14Sort(jobs)
 				committees := st.Committees
